@@ -9,6 +9,7 @@ import (
 	"context"
 	"sort"
 	"strings"
+	"time"
 
 	"github.com/hyperjumptech/grule-rule-engine/ast"
 	"github.com/hyperjumptech/grule-rule-engine/engine"
@@ -597,4 +598,30 @@ func VerifFetchTwice(set string) {
 	}
 	verif.Reach("tierB:second-fetch")
 	check("second-call-same-data-context")
+}
+
+// ---------------------------------------------------------------- the clock across calls (C08)
+
+// VerifClockReuse: two Execute calls on one instance; time.Now is an arbitrary non-decreasing clock (environment).
+// What the second call reads from Now() must not be older than the start of the second call: a value remembered from
+// the first call would be.
+func VerifClockReuse() {
+	verif.SymbolicClock()
+	w := tbSetup("b_clock", 0, false)
+	eng := &engine.GruleEngine{MaxCycle: 3}
+	_ = eng.Execute(w.dc, w.kb)
+	first := w.f.RI
+	w.f = newFact("G", 0)
+	w.dc = ast.NewDataContext()
+	w.dc.Add("F", w.f)
+	w.f.U8 = 0 // the stamping rule is due in the second call
+	start := time.Now().Unix()
+	verif.Reach("tierB:clock-second-call")
+	err := eng.Execute(w.dc, w.kb)
+	if err == nil && w.f.U8 == 1 {
+		verif.Reach("tierB:clock-stamped-in-second-call")
+		verif.Event("clock", first, start, w.f.RI)
+		verif.Assert("C08:clock-read-in-a-later-call-is-not-older-than-the-call@b_clock", w.f.RI >= start)
+	}
+	_ = first
 }
